@@ -30,6 +30,10 @@ def oracle(env, ev):
         if not owner:
             return ('soft-limit signal sent to %r on behalf of no accepted '
                     'job' % pid)
+        if pid not in [p.pid for p in env.pool._pool]:
+            return ('soft-limit signal sent to %r, which is not a live '
+                    'process of the pool any more (its job %r is waiting '
+                    'out the lost-worker grace period)' % (pid, owner))
         j = owner[-1]
         rec = env.jobs[j]
         h = rec['h']
